@@ -41,7 +41,7 @@ def build(race=False, tags="verif"):
         cmd = ["go", "build", "-tags", tags, "-cover", "-coverpkg=goatverif/...,github.com/goatnetwork/goat/x/...,github.com/goatnetwork/goat/app/...,github.com/goatnetwork/goat/pkg/...", "-o", out]
     cmd.append("./cmd/goatverif")
     t0 = time.time()
-    p = subprocess.run(cmd, cwd=HARNESS, env=goenv(), capture_output=True, text=True)
+    p = subprocess.run(cmd, cwd=HARNESS, env=goenv(), capture_output=True, text=True, errors="replace")
     if p.returncode != 0:
         raise Infra("harness build failed:\n" + p.stdout + p.stderr)
     log("built %s in %.1fs" % (os.path.basename(out), time.time() - t0))
@@ -56,7 +56,7 @@ def driver(binary, args, cwd, timeout=3600, env=None):
     if os.environ.get("VERIF_COVERDIR"):
         e["GOCOVERDIR"] = os.environ["VERIF_COVERDIR"]
     try:
-        p = subprocess.run([binary] + [str(a) for a in args], cwd=cwd, env=e, capture_output=True, text=True, timeout=timeout)
+        p = subprocess.run([binary] + [str(a) for a in args], cwd=cwd, env=e, capture_output=True, text=True, errors="replace", timeout=timeout)
     except subprocess.TimeoutExpired:
         raise Infra("driver timed out: %s" % " ".join(map(str, args)))
     return p.returncode, p.stdout, p.stderr
@@ -95,7 +95,7 @@ def tlc(spec, cfg, cwd, workers=1, extra=(), timeout=1800, heap=None, deque=Fals
             os.path.join(SPEC, spec), "-config", os.path.join(SPEC, cfg), "-workers", str(workers), "-metadir", md, "-noGenerateSpecTE"]
     cmd += list(extra)
     try:
-        p = subprocess.run(cmd, cwd=cwd, capture_output=True, text=True, timeout=timeout)
+        p = subprocess.run(cmd, cwd=cwd, capture_output=True, text=True, errors="replace", timeout=timeout)
     except subprocess.TimeoutExpired:
         raise Infra("TLC timed out on %s/%s" % (spec, cfg))
     finally:
